@@ -3,6 +3,7 @@
 
 mod core;
 mod fake_junos;
+mod fullrun;
 mod irr;
 mod junos_model;
 mod mem;
